@@ -88,12 +88,13 @@ def cls(name, **kw):
 
 
 class LoopSpec:
-    def __init__(self, inv=None, ghosts=None, modifies=None, lemmas=None, unroll=False, body=None):
+    def __init__(self, inv=None, ghosts=None, modifies=None, lemmas=None, unroll=False, body=None, counters=None):
         self.inv = dict(inv or {})          # clause -> lambda(lc) -> BoolRef | [BoolRef]
         self.ghosts = dict(ghosts or {})    # name -> (type, init lambda(lc), step lambda(lc))
         self.modifies = modifies            # optional explicit list of roots
         self.lemmas = lemmas                # lambda(lc) -> [BoolRef] extra hypotheses (lemma instances)
         self.unroll = unroll
+        self.counters = counters            # event counters the loop body may advance (None: all)
         self.body = dict(body or {})        # clause -> lambda(lc): checked at the end of an arbitrary iteration
 
 
